@@ -91,7 +91,8 @@ func verifH_C02_floor() {
 // reading or location give the same derivation, hence the same code.
 //
 //verif:harness prop=C02 name=independence
-//verif:cases quick keylen=10
+//verif:cases quick keylen=10 period=1,30
+//verif:cases thorough keylen=10 period=1,30,-1
 //verif:replace github.com/ja7ad/otp.deriveRFC4226=verifStub_deriveRec
 //verif:replace github.com/ja7ad/otp.DecodeSecret=verifStub_DecodeSecret
 func verifH_C02_independence() {
@@ -102,8 +103,11 @@ func verifH_C02_independence() {
 	t2 := verifTimeAt("t2", -1, sec)
 	verifAssume(t1.Unix() == sec)
 	verifAssume(t2.Unix() == sec)
-	period := verifUint("period")
-	verifAssume(period <= 1<<32)
+	period := uint(verifCase("period"))
+	if verifCase("period") < 0 { // every period (harder for the solvers: thorough tier)
+		period = verifUint("period")
+		verifAssume(period <= 1<<32)
+	}
 	p := &Param{Digits: 6, Algorithm: SHA1, Period: period}
 	secret := verifSecretFor(key, false)
 	verifResetSeen()
